@@ -304,3 +304,8 @@ def run(ctx):
                     ctx.violation("C06/%s.shapely_object/denotes-another-set" % kind,
                                   "point %s: exported geometry contains=%s, parameters say %s (%s)" % (p, ex, truth, d),
                                   {"shape": lookup._shape_wit(shp), "point": p})
+
+    # ambient workload (thorough tier): the repository's own tests with the contracts installed
+    if not ctx.quick and ctx.shard == 0 and ctx.only is None:
+        from vf.ambient import run_ambient
+        run_ambient(ctx, ['lookup'])
